@@ -110,10 +110,11 @@ def make_flake(case, storeStates="all"):
     from ethz_snow.snowflake import Snowflake
 
     cfg_path = None
-    if case.get("config"):
+    cfg0 = case["pre_config"] if "pre_config" in case else case.get("config")
+    if cfg0:
         fd, cfg_path = tempfile.mkstemp(suffix=".yaml", prefix="verif_flake_")
         with os.fdopen(fd, "w") as f:
-            yaml.safe_dump(case["config"], f)
+            yaml.safe_dump(cfg0, f)
     try:
         kw = dict(
             k=dict(case["k"]),
@@ -171,6 +172,19 @@ def run_real(case, script=None):
     mode = "script" if script is not None else "record"
     with contextlib.redirect_stdout(io.StringIO()):   # the code prints warnings
         S = make_flake(case)
+        if "pre_config" in case:
+            # object history: a first run under `pre_config` (other kinetics), then the
+            # configuration in force for the observed run is assigned through `configPath`
+            import yaml
+
+            S.run()
+            fd, path2 = tempfile.mkstemp(suffix=".yaml", prefix="verif_flake_")
+            with os.fdopen(fd, "w") as f:
+                yaml.safe_dump(case.get("config") or {}, f)
+            try:
+                S.configPath = path2
+            finally:
+                os.unlink(path2)
         # run() restarts its generator (`np.random.default_rng(self.seed)`): the proxy is
         # installed by patching the factory in THIS process for the duration of the run;
         # older trees that keep `self._rng` get the proxy assigned directly.
@@ -229,6 +243,12 @@ def run_real(case, script=None):
         "threshold": float(S.solidificationThreshold),
         "initIce": S.initIce,
         "dt": float(S.dt),
+        # what the USER configured (inputs of the model; nothing derived by the real object)
+        "initIce_arg": case.get("initIce", "indirect"),
+        "s0_arg": float(case["k"].get("s0", 0.0)),
+        "sRel_arg": (None if case["k"].get("s_sigma_rel") is None else float(case["k"]["s_sigma_rel"])),
+        "nz": int(case["N_vials"][2]),
+        "normals": (px.normals[-1] if px.normals else []),
     }
     return obs
 
@@ -242,9 +262,11 @@ def _params(impl):
         "a": f2b(impl["a"]), "c": f2b(impl["c"]), "xi": [f2b(x) for x in impl["xi"]],
         "nbrs": impl["nbrs"], "ext": impl["ext"],
         "kInt": f2b(impl["kInt"]), "kExt": f2b(impl["kExt"]),
-        "kShelf": [f2b(x) for x in impl["kShelf"]],
+        # shelf coefficients are DERIVED by the model from s0, s_sigma_rel and the recorded normals
+        "s0": f2b(impl["s0_arg"]), "sRel": (None if impl["sRel_arg"] is None else f2b(impl["sRel_arg"])),
+        "normals": [f2b(x) for x in impl["normals"]], "nz": impl["nz"],
         "A": f2b(impl["A"]), "dt": f2b(impl["dt"]), "threshold": f2b(impl["threshold"]),
-        "initIce": impl["initIce"],
+        "initIce": impl["initIce_arg"],
     }
 
 
@@ -278,7 +300,7 @@ def run_model(drv, case, impl):
         return {"raise": r["raise"]}
     out = {
         "raise": None, "N": r["N"], "kCN": r["kCN"], "tlen": r["tlen"],
-        "kb": [b2f(x) for x in r["kb"]],
+        "kb": [b2f(x) for x in r["kb"]], "kShelf": [b2f(x) for x in r["kShelf"]],
         "tNuc": _optf(r["tNuc"]), "TNuc": _optf(r["TNuc"]), "tSol": _optf(r["tSol"]),
         "nucStep": r["nucStep"], "draws": r["draws"], "diceLeft": r["diceLeft"],
         "margins": [b2f(x) for x in r["margins"]],
@@ -362,6 +384,11 @@ def compare_run(case, impl, model, tie=1e-9):
     for i, (x, y) in enumerate(zip(impl["kb"], model["kb"])):
         if not close(x, y, 1e-9) and not (abs(x - y) <= 1e-9 * max(abs(x), abs(y))):
             dis.append(f"kb[{i}]: impl {x!r} vs model {y!r}")
+            break
+    # shelf heat-transfer vector as used by the real run vs the configured coefficients
+    for i, (x, y) in enumerate(zip(impl["Hshelf"], model["kShelf"])):
+        if not close(x, y * impl["A"]) or abs(x - y * impl["A"]) > 1e-9 * max(abs(x), abs(y * impl["A"])):
+            dis.append(f"H_shelf[{i}] as used: impl {x!r} vs model k_shelf*A {y * impl['A']!r}")
             break
     # controlled-nucleation index as the real run would compute it
     t = np.asarray(impl["t"])
@@ -508,6 +535,34 @@ def physical(case_config=None):
     ph["cp_l"] = ph["w_s"] * ph["cp_s"] + (1 - ph["w_s"]) * ph["cp_w"]
     ph["T_eq_l"] = ph["T_m"] - ph["D"]
     return ph
+
+
+def spec_kshelf(case, impl):
+    """shelf coefficient per vial implied by the CONFIGURED coefficients and the recorded normals:
+    k_i = max(0, s0 + n_i * s_sigma_rel * s0) on a shelf, s0 without variability, 0 in a pallet"""
+    n = impl["n"]
+    k = case["k"]
+    if case["N_vials"][2] > 1:
+        return np.zeros(n)
+    rel = k.get("s_sigma_rel")
+    if rel is not None and rel > 0:
+        nm = np.asarray(impl["normals"], dtype=float)
+        if len(nm) != n:
+            return np.full(n, np.nan)
+        return np.maximum(0.0, k["s0"] + nm * rel * k["s0"])
+    return np.full(n, float(k["s0"]))
+
+
+def check_kshelf(case, impl):
+    """None if the heat-transfer vector used by the run is the configured one, else a message"""
+    ks = spec_kshelf(case, impl)
+    Hs = np.asarray(impl["Hshelf"])
+    want = ks * impl["A"]
+    bad = ~(np.abs(Hs - want) <= 1e-9 * np.maximum(np.abs(Hs), np.abs(want)))
+    if bad.any():
+        i = int(np.where(bad)[0][0])
+        return f"vial {i}: H_shelf used {Hs[i]!r} vs configured k_shelf*A {want[i]!r} (k_shelf {ks[i]!r})"
+    return None
 
 
 def spec_q(ph, impl, M, T, Tsh, i):
